@@ -77,7 +77,7 @@ def c27Step (d : DSt) (line : String) : DSt × String :=
       match parseInt n with
       | some n => let s := step d.c (.recv n); ({ d with c := s }, counterLine s)
       | none => (d, "bad-op")
-    | ["sent", n] =>
+    | ["sent", n, _flags] =>
       match parseInt n with
       | some n => let s := step d.c (.send n); ({ d with c := s }, counterLine s)
       | none => (d, "bad-op")
